@@ -289,7 +289,7 @@ def rules(rep, db, only):
         (rep.fail("POSIT", key, F.primary_site(fn), F.describe(fn), why) if why else rep.ok("POSIT", key, F.primary_site(fn), F.describe(fn)))
     for nm, chk in (("pos_iterator::dereference", lambda v, ev: None if names(v) == "this.current_" and not ev else "dereference yields %s" % names(v)),
                     ("pos_iterator::equal", lambda v, ev: None if names(v).replace("r_a0", "o") in ("(this.current_==o.current_)",) or
-                     (len(ev) == 1 and [names(a) for a in ev[0][1]] == ["this.current_", "r_a0.current_"]) else "equal compares %s" % names(v))):
+                     (len(ev) == 1 and sorted(names(a) for a in ev[0][1]) == sorted(["this.current_", "r_a0.current_"]) and ev[0][0].split("<")[0].endswith("operator==")) else "equal compares %s" % names(v))):
         seen = set()
         for fn in db.fns(G + nm):
             N = dims({"targs": fn.get("rec_targs")})
